@@ -279,7 +279,7 @@ def run_model(ctx, cases):
 
 
 def hunt(ctx):
-    run(ctx, n_payloads=ctx.budget(4, 12), cut_budget=ctx.budget(40, 120))
+    run(ctx, n_payloads=ctx.budget(1, 12), cut_budget=ctx.budget(10, 120))
 
 
 def replay(ctx, data):
@@ -289,4 +289,7 @@ def replay(ctx, data):
     got = impl(parts, **data.get('kw', {}))
     if base[0] == 'Ok' and got != base:
         return f'decodes differently from the plain carrier of the same payload: {got[1] if got[0] == "Raise" else "field values differ"}'
+    if base[0] == 'Raise' and (got[0] == 'Ok' or got[1] != base[1]):
+        return (f'the plain carrier of the payload is rejected with {base[1]} but this carrier gives '
+                f'{got[1] if got[0] == "Raise" else "a " + got[1][0]}')
     return None
